@@ -88,8 +88,10 @@ def opOf (j : Json) : Except String Op := do
     let props ← pairsOf (← o.getObjVal? "props")
     let gv := fun (key : String) => match o.getObjVal? key with | .ok v => valOf v | .error _ => Val.none
     let ord := match getBool o "ord" with | .ok b => b | .error _ => false
+    let w0 := match getNat o "w" with | .ok n => n | .error _ => 0
     pure (.mkT { kind := k, lang := lang, lemma := lem.toList, props := props, pe := gv "pe", n := gv "n",
-                 g := gv "g", t := gv "t", gram0 := gv "gram0", ord := ord })
+                 g := gv "g", t := gv "t",
+                 aux := (match o.getObjVal? "aux" with | .ok v => some (valOf v) | .error _ => none), gram0 := gv "gram0", ord := ord, warns := w0 })
   else if tag == "mkP" || tag == "mkD" then
     let k ← kindOf (← (← j.getArrVal? 1).getStr?)
     let lang ← langOf (← (← j.getArrVal? 2).getStr?)
@@ -158,26 +160,20 @@ def snapJson (h : Heap) : Json :=
   Json.mkObj [("nodes", Json.arr nodes.toArray), ("recs", Json.mkObj recs), ("trecs", Json.mkObj trecs),
               ("w", toJson h.warns)]
 
-/-- run a history; after each op a snapshot; the run with reads in the current state must agree -/
-def histLoop : Heap → Heap → List Op → List Json → List Json × String × Bool
-  | _, _, [], acc => (acc.reverse, "ok", true)
-  | h, hd, o :: os, acc =>
-    match runOp h false o, runOp hd true o with
-    | .ok h', .ok hd' =>
-      let sj := snapJson h'
-      if sj.compress == (snapJson hd').compress then histLoop h' hd' os (sj :: acc)
-      else (acc.reverse, "ok", false)
-    | .crash c, .crash c' => (acc.reverse, c.name, c == c')
-    | .outside, .outside => (acc.reverse, "outside", true)
-    | _, _ => (acc.reverse, "ok", false)
+/-- run a history; after each op a snapshot -/
+def histLoop : Heap → List Op → List Json → List Json × String
+  | _, [], acc => (acc.reverse, "ok")
+  | h, o :: os, acc =>
+    match runOp h o with
+    | .ok h' => histLoop h' os (snapJson h' :: acc)
+    | .crash c => (acc.reverse, c.name)
+    | .outside => (acc.reverse, "outside")
 
 def histOp : Handler := fun j => do
   let a ← getArr j "ops"
   let ops ← a.toList.mapM opOf
-  let (snaps, fin, dynOk) := histLoop {} {} ops []
-  if !dynOk then throw "plan/exec with resolved sources differs from execution with reads in the current state"
-  let last := getOpt j "all" |>.isNone
-  pure (Json.mkObj [("snaps", Json.arr (if last then snaps.toArray else snaps.toArray)), ("end", Json.str fin)])
+  let (snaps, fin) := histLoop {} ops []
+  pure (Json.mkObj [("snaps", Json.arr snaps.toArray), ("end", Json.str fin)])
 
 /-! ### `_getElems` -/
 
